@@ -41,6 +41,9 @@ def cases(ctx):
         if not thorough or ctx.mine(i):
             yield {'P': P, 'cfg': False, 'probe': probes}
     for i in range(6 if not thorough else 40):
+        P, probes = marker_reentry_pda(rng)
+        yield {'P': P, 'cfg': True, 'probe': probes}
+    for i in range(6 if not thorough else 40):
         P, w = word_chain_pda(rng)
         yield {'P': P, 'cfg': True, 'probe': [w, w[:-1], w + 'a']}
     for i in range(60 if not thorough else 600):
@@ -65,6 +68,21 @@ def word_chain_pda(rng):
         delta[-1] = [Q[-2], w[-1], 'x', [[Q[-1], eps]]]
     rng.shuffle(delta)
     return {'Q': Q, 'Sigma': ['a', 'b'], 'Gamma': ['x'], 'delta': delta, 'q0': Q[0], 'F': [Q[-1]], 'eps': eps, 'dd': True}, w
+
+
+def marker_reentry_pda(rng):
+    """textbook shape: the only move of the non-accepting initial state pushes a bottom marker, accepting states are entered by popping it --
+    but the initial state is RE-ENTERED by another move, so the marker can be pushed twice and words are accepted with a marker left"""
+    eps = rng.choice(['_', 'ε'])
+    m = rng.choice(['$', '#', 'Z'])
+    a, c = rng.sample(['a', 'b', 'c'], 2)
+    i, p, f = rng.choice([('q0', 'q1', 'q2'), ('s', 'p', 'f'), ('i', 'w', 'acc')])
+    delta = [[i, eps, eps, [[p, m]]], [p, a, eps, [[p, 'X']]], [p, c, 'X', [[i, eps]]], [p, eps, m, [[f, eps]]]]
+    if rng.random() < 0.5:
+        delta.append([p, a, 'X', [[p, eps]]])
+    rng.shuffle(delta)
+    P = {'Q': [i, p, f], 'Sigma': sorted([a, c]), 'Gamma': sorted({'X', m}), 'delta': delta, 'q0': i, 'F': [f], 'eps': eps, 'dd': True}
+    return P, ['', a + c, a + a + c, a + c + a + c, a, c, a + a + c + c]
 
 
 def lean_requests(c):
